@@ -46,7 +46,10 @@ type FuncCtx struct {
 	qn          int
 	pureDepth   int
 	wfDepth     int
-	privateRefs []Term
+	pendingParts []clausePart
+	pendingGuard Term
+	constGlobals map[string]Term
+	privateRefs []privRef
 }
 
 type Val struct {
@@ -146,6 +149,7 @@ type Frame struct {
 	innerDone   map[*ssa.BasicBlock]bool
 	unrolling   *loop
 	pendingBack []predEdge
+	escapeAt    map[ssa.Instruction][]*ssa.Alloc
 }
 
 type predEdge struct {
@@ -314,7 +318,7 @@ func (c *FuncCtx) newFrame(fn *ssa.Function, con *Contract, parent *Frame) (*Fra
 	}
 	fr := &Frame{c: c, fn: fn, con: con, parent: parent, env: map[ssa.Value]*Val{}, events: map[string]*Event{},
 		sites: map[ssa.Instruction]siteInfo{}, params: map[string]TV{}, heapCell: classifyCells(fn), loops: li,
-		inEdges: map[*ssa.BasicBlock][]predEdge{}, bind: map[string]TV{}}
+		inEdges: map[*ssa.BasicBlock][]predEdge{}, bind: map[string]TV{}, escapeAt: escapesAt(fn)}
 	if parent != nil {
 		fr.depth = parent.depth + 1
 	}
@@ -446,7 +450,22 @@ func (c *FuncCtx) globalLVal(g *ssa.Global) *LVal {
 	key := "G:" + g.Pkg.Pkg.Path() + "." + g.Name()
 	elem := g.Type().(*types.Pointer).Elem()
 	constant := !c.v.globalAssigned[g]
+	_, known := c.keys[key]
 	c.registerKey(key, c.sortOf(elem), constant)
+	if _, isFn := elem.Underlying().(*types.Signature); !known && constant && c.v.globalInitNonNil(g.Pkg.Pkg.Path(), g.Name()) && (isFn || !c.v.globalInitIsRef(g.Pkg.Pkg.Path(), g.Name())) {
+		// initialised with a non-nil value and never assigned again
+		init := c.initVal(key, c.sortOf(elem), &Base{id: 0})
+		c.constGlobals[key] = init
+		switch elem.Underlying().(type) {
+		case *types.Interface:
+			c.sc.assume(not(eq(ifTag(init), Term{"0", SInt})))
+		case *types.Pointer, *types.Map:
+			c.sc.assume(not(eq(init, Term{"nil_ref", SRef})))
+		case *types.Signature:
+			c.sc.assume(not(eq(init, Term{"nil_fn", SFn})))
+		}
+		c.assumeNote("package-level variables initialised with errors.New/fmt.Errorf/a literal and never assigned again are non-nil")
+	}
 	return &LVal{kind: rkGlobal, key: key, rootT: elem, typ: elem}
 }
 
@@ -942,6 +961,12 @@ func (fr *Frame) oblige(kind, detail string, goal Term, pos token.Pos, what stri
 	name := fmt.Sprintf("%s#%d", base, c.oblCount[base])
 	g := c.sc.define("goal", goal)
 	o := &Obligation{Name: name, Kind: kind, Func: c.funcName, Props: c.props, Goal: g, Detail: what}
+	if c.pendingParts != nil {
+		for _, p := range c.pendingParts {
+			o.Parts = append(o.Parts, clausePart{p.Text, c.sc.define("part", implies(c.pendingGuard, p.Goal))})
+		}
+		c.pendingParts = nil
+	}
 	if pos.IsValid() {
 		o.Pos = c.v.fset.Position(pos).String()
 	}
@@ -983,6 +1008,7 @@ type loopRun struct {
 	varTy   types.Type
 	rangeIx string // state key of the rangeindex cell
 	autoInv func(st *State) Term
+	frameKeys []string
 }
 
 func (fr *Frame) enterLoop(l *loop, st *State) error {
@@ -1034,8 +1060,20 @@ func (fr *Frame) enterLoop(l *loop, st *State) error {
 		}
 		fr.oblige("invariant-entry", fmt.Sprintf("loop%d/%s", l.ordinal, clauseLabel(cl, i)), implies(fr.reach, t), token.NoPos, "loop invariant holds on entry: "+oneLine(cl.Text))
 	}
+	// a function that modifies nothing keeps, as an automatic loop invariant, every object that
+	// existed at entry unchanged in the heap arrays the loop writes
+	frameLoop := fr.isTop && fr.con != nil && (fr.con.Pure || modifiesNothing(fr.con))
+	pre := st.clone()
 	// havoc what the loop modifies
-	fr.havocLoop(l, st)
+	lr.frameKeys = fr.havocLoop(l, st)
+	if frameLoop {
+		for _, k := range lr.frameKeys {
+			fr.oblige("invariant-entry", fmt.Sprintf("loop%d/frame/%s", l.ordinal, sanitize(k)), implies(fr.reach, fr.frameInv(k, pre)), token.NoPos, "modifies nothing: "+k+" unchanged on loop entry")
+			c.sc.assume(implies(fr.reach, fr.frameInv(k, st)))
+		}
+	} else {
+		lr.frameKeys = nil
+	}
 	ec = fr.evalCtx(st, fr.entry, l.head.Instrs[0].Pos())
 	ec.rangeIx = lr.rangeIx
 	if lr.autoInv != nil {
@@ -1087,6 +1125,9 @@ func (fr *Frame) backEdge(l *loop, from *ssa.BasicBlock, cond Term, st *State) {
 	if lr.autoInv != nil {
 		fr.oblige("invariant-preserved", fmt.Sprintf("loop%d/range", l.ordinal), implies(cond, lr.autoInv(st)), token.NoPos, "range index bounds preserved")
 	}
+	for _, k := range lr.frameKeys {
+		fr.oblige("invariant-preserved", fmt.Sprintf("loop%d/frame/%s", l.ordinal, sanitize(k)), implies(cond, fr.frameInv(k, st)), token.NoPos, "modifies nothing: "+k+" unchanged by the loop body")
+	}
 	for i, cl := range fr.loopClauses(l, "invariant") {
 		t, err := ec.evalBool(cl.Expr)
 		if err != nil {
@@ -1115,7 +1156,7 @@ func (fr *Frame) backEdge(l *loop, from *ssa.BasicBlock, cond Term, st *State) {
 }
 
 // havocLoop forgets everything the loop body may modify.
-func (fr *Frame) havocLoop(l *loop, st *State) {
+func (fr *Frame) havocLoop(l *loop, st *State) []string {
 	c := fr.c
 	all := false
 	var blocks []*ssa.BasicBlock
@@ -1127,6 +1168,7 @@ func (fr *Frame) havocLoop(l *loop, st *State) {
 	heaps := map[string]bool{}
 	for _, b := range blocks {
 		for _, in := range b.Instrs {
+			fr.markEscaped(in)
 			switch x := in.(type) {
 			case *ssa.Store:
 				fr.havocTarget(x.Addr, cells, heaps)
@@ -1182,7 +1224,7 @@ func (fr *Frame) havocLoop(l *loop, st *State) {
 	}
 	if all {
 		c.havocAll(st)
-		return
+		return nil
 	}
 	hk := make([]string, 0, len(heaps))
 	for k := range heaps {
@@ -1192,6 +1234,23 @@ func (fr *Frame) havocLoop(l *loop, st *State) {
 	for _, k := range hk {
 		st.set(k, c.sc.fresh("lh_"+k, c.keys[k].sort))
 	}
+	c.heapWritten(st)
+	return hk
+}
+
+// frameInv: objects that existed at function entry are unchanged in heap array k.
+func (fr *Frame) frameInv(k string, st *State) Term {
+	c := fr.c
+	entry, cur := c.get(fr.entry, k), c.get(st, k)
+	if entry.S == cur.S {
+		return tTrue
+	}
+	if !strings.HasPrefix(string(entry.Sort), "(Array Ref ") {
+		return eq(cur, entry)
+	}
+	inner := Sort(strings.TrimSuffix(strings.TrimPrefix(string(entry.Sort), "(Array Ref "), ")"))
+	c.sc.declFun("alloc_id", []Sort{SRef}, SInt)
+	return Term{fmt.Sprintf("(forall ((r Ref)) (=> (<= (alloc_id r) 0) (= %s %s)))", sel(cur, Term{"r", SRef}, inner).S, sel(entry, Term{"r", SRef}, inner).S), SBool}
 }
 
 // wfKey re-establishes type well-formedness of a havoced local cell.
@@ -1280,76 +1339,125 @@ func (c *FuncCtx) heapWritten(st *State) {
 	c.bumpEpoch(st)
 }
 
-// privateAlloc: the allocation's address never leaves the function: it is only dereferenced,
-// indexed, or sliced into slices that are themselves only indexed / measured locally.
-func privateAlloc(a *ssa.Alloc) bool {
-	return privateUses(a, map[ssa.Value]bool{})
-}
-
-func privateUses(v ssa.Value, seen map[ssa.Value]bool) bool {
+// Escape analysis for allocations: an object allocated by the function is private (unreachable
+// for callees, hence unaffected by havoc) until the first instruction at which its address, or a
+// slice of it, flows somewhere other than a local dereference / index / local variable.
+func collectEscapes(v ssa.Value, seen map[ssa.Value]bool, out *[]ssa.Instruction, self ssa.Instruction) {
 	if seen[v] {
-		return true
+		return
 	}
 	seen[v] = true
 	refs := v.Referrers()
 	if refs == nil {
-		return false
+		*out = append(*out, self)
+		return
 	}
 	for _, r := range *refs {
 		switch u := r.(type) {
 		case *ssa.DebugRef:
 		case *ssa.UnOp:
 			if u.Op != token.MUL || u.X != v {
-				return false
+				*out = append(*out, r)
 			}
-			// loading a pointer-typed element leaks nothing about v itself
 		case *ssa.Store:
 			if u.Val == v {
 				// stored into a local variable: follow the loads of that variable
 				cell, ok := u.Addr.(*ssa.Alloc)
-				if !ok || cell.Referrers() == nil {
-					return false
+				if !ok || cell.Referrers() == nil || cell.Heap {
+					*out = append(*out, r)
+					continue
 				}
 				for _, cr := range *cell.Referrers() {
 					switch cu := cr.(type) {
 					case *ssa.Store:
 						if cu.Addr != cell {
-							return false
+							*out = append(*out, cr)
 						}
 					case *ssa.UnOp:
-						if cu.Op != token.MUL || !privateUses(cu, seen) {
-							return false
+						if cu.Op != token.MUL {
+							*out = append(*out, cr)
+						} else {
+							collectEscapes(cu, seen, out, cu)
 						}
 					case *ssa.DebugRef:
 					default:
-						return false
+						*out = append(*out, cr)
 					}
 				}
 				continue
 			}
 			if u.Addr != v {
-				return false
+				*out = append(*out, r)
 			}
 		case *ssa.FieldAddr:
-			if !privateUses(u, seen) {
-				return false
-			}
+			collectEscapes(u, seen, out, u)
 		case *ssa.IndexAddr:
-			if u.X != v || !privateUses(u, seen) {
-				return false
+			if u.X != v {
+				*out = append(*out, r)
+			} else {
+				collectEscapes(u, seen, out, u)
 			}
 		case *ssa.Slice:
-			if u.X != v || !privateUses(u, seen) {
-				return false
+			if u.X != v {
+				*out = append(*out, r)
+			} else {
+				collectEscapes(u, seen, out, u)
 			}
 		case *ssa.Call:
 			b, ok := u.Call.Value.(*ssa.Builtin)
 			if !ok || (b.Name() != "len" && b.Name() != "cap") {
-				return false
+				*out = append(*out, r)
 			}
 		default:
-			return false
+			*out = append(*out, r)
 		}
 	}
-	return true
+}
+
+type privRef struct {
+	t  Term
+	a  *ssa.Alloc
+	fr *Frame
+}
+
+// escapesAt computes, per instruction, the allocations that stop being private there.
+func escapesAt(fn *ssa.Function) map[ssa.Instruction][]*ssa.Alloc {
+	out := map[ssa.Instruction][]*ssa.Alloc{}
+	for _, b := range fn.Blocks {
+		for _, in := range b.Instrs {
+			a, ok := in.(*ssa.Alloc)
+			if !ok {
+				continue
+			}
+			var esc []ssa.Instruction
+			collectEscapes(a, map[ssa.Value]bool{}, &esc, a)
+			for _, e := range esc {
+				out[e] = append(out[e], a)
+			}
+		}
+	}
+	return out
+}
+
+// markEscaped removes allocations escaping at instruction `in` from the private set.
+func (fr *Frame) markEscaped(in ssa.Instruction) {
+	allocs := fr.escapeAt[in]
+	if len(allocs) == 0 || len(fr.c.privateRefs) == 0 {
+		return
+	}
+	var keep []privRef
+	for _, p := range fr.c.privateRefs {
+		esc := false
+		if p.fr == fr {
+			for _, a := range allocs {
+				if a == p.a {
+					esc = true
+				}
+			}
+		}
+		if !esc {
+			keep = append(keep, p)
+		}
+	}
+	fr.c.privateRefs = keep
 }
